@@ -314,10 +314,18 @@ func runC01Chain(rep *vh.Report, r *vh.Rng, n int, thorough bool) {
 	app := &EnvOps{rep: vh.NewReport("scratch", 0), r: r} // application-side creation of envelopes (ops of C01's own domains)
 	combos := len(c01chainFlavours) * len(c01chainForms)
 	offset := r.Intn(combos)
-	for sc := 0; sc < n; sc++ {
+	// after the n scenarios of the flavour x form table: plaintexts that begin like a serialized container
+	// (c01Lookalike: id x declared length x tail), every column flavour in turn
+	nLook := n/9 + 10
+	lookOff := r.Intn(c01LookalikeCombos)
+	for sc := 0; sc < n+nLook; sc++ {
 		k := (sc + offset) % combos
 		f := c01chainFlavours[k%len(c01chainFlavours)] // copy
 		form := c01chainForms[(k/len(c01chainFlavours))%len(c01chainForms)]
+		if sc >= n {
+			form = "lookalike"
+			f = c01chainFlavours[(sc-n+offset)%len(c01chainFlavours)]
+		}
 		owner := vh.NewKeySet(r, 1+r.Intn(2), 1+r.Intn(2), true)
 		other := vh.NewKeySet(r, 1, 1, true)
 		keys := vh.NewMemKeystore()
@@ -335,6 +343,15 @@ func runC01Chain(rep *vh.Report, r *vh.Rng, n int, thorough bool) {
 			}
 		case "empty":
 			x = nil
+		case "lookalike":
+			var real []byte
+			if c := app.EncHandler("", c01LookIDs[r.Intn(len(c01LookIDs))], owner, c01chainPlain(r)); c.Kind == "ok" {
+				real = c.Vals[0]
+			}
+			x, class = c01Lookalike(r, real, lookOff+5*(sc-n))
+			if c01IsProtectedValue(x) { // by accident a well-formed envelope: not this family
+				x, class = c01chainPlain(r), "plain"
+			}
 		default:
 			x = c01chainPlain(r)
 			if r.Intn(3) == 0 {
@@ -471,6 +488,13 @@ func runC01Chain(rep *vh.Report, r *vh.Rng, n int, thorough bool) {
 		}
 		if len(want) == 0 {
 			wantDec = false
+		}
+		// a plaintext (whatever its first bytes look like) is not stored in clear: only a masked column keeps a clear window
+		if !protected && !f.mask && len(in) >= 16 && len(bytes.Trim(in, string(in[:1]))) != 0 {
+			rep.OracleChecks++
+			if bytes.Contains(stored, in) {
+				rep.Violate("chain-plaintext-stored-in-clear", "the write chain stored a plaintext that is not a protected value unencrypted", replay(stored, ""))
+			}
 		}
 		// a protected value is not wrapped a second time: it is stored as it is, behind its index in a searchable column
 		if protected && !cut {
